@@ -211,7 +211,8 @@ def _run(ctx: Ctx) -> Result:
         # ---- script path
         own = auth([prefix, code], sf, record=False)[0] if prefix else auth([code], sf, record=False)[0]
         def scriptpath(what, s, k, lk=lock.bytes):
-            recomputes = (len(k) == 32 and ed.dec(k) is not None and ed.mul(ed.L, ed.dec(k)) == (0, 1) and lk[2:34] == ed.enc(ed.add(ed.dec(k), ed.mul(int.from_bytes(hashlib.sha256(k + hashlib.sha256(s).digest()).digest(), 'little') & (2**255 - 1), ed.B))))
+            rootop = lk[1:2] if lk[:1] == b'\x02' else lk[2:2 + lk[1]]          # the item the lock pushes before OP_TAPROOT
+            recomputes = (len(k) == 32 and ed.dec(k) is not None and ed.mul(ed.L, ed.dec(k)) == (0, 1) and rootop == ed.enc(ed.add(ed.dec(k), ed.mul(int.from_bytes(hashlib.sha256(k + hashlib.sha256(s).digest()).digest(), 'little') & (2**255 - 1), ed.B))))
             w = prefix + push(s) + push(k)
             ok, o, tapes = auth([w, lk], sf)
             c = case([w, lk])
@@ -247,6 +248,11 @@ def _run(ctx: Ctx) -> Result:
         scriptpath('key with a torsion component (P + order-8 point), root computed for it by the formula', code, Kt, lkt)
         j = rng.randrange(32); lk2 = lock.bytes[:2 + j] + bytes([lock.bytes[2 + j] ^ (1 << rng.randrange(8))]) + lock.bytes[3 + j:]
         scriptpath('one bit of the root in the lock flipped', code, pk, lk2)
+        # a root operand that is not 32 bytes (the true root with bytes appended, or a prefix of it) is not the root
+        for what_, r_ in (('the true root with a byte appended', root + b'\x00'), ('the true root with five bytes appended', root + bytes(5)), ('the first 31 bytes of the true root', root[:31]),
+                          ('the first 16 bytes of the true root', root[:16]), ('the first byte of the true root', root[:1])):
+            lkr = G.push(r_) + lock.bytes[34:]
+            scriptpath(f'{what_} as the lock\'s root operand', code, pk, lkr)
         okk, o, _ = auth([wk.bytes, lk2], sf)
         if okk: B.viol('key path: honest witness against a lock whose root has one bit flipped', case([wk.bytes, lk2]), False, o[:80])
         # ---- history: a Script object whose bytes are replaced in place between two builds - the second lock commits to the new bytes
